@@ -157,6 +157,26 @@ def step_coq(prop):
     return fails, len(theorems), discharged, theorems, axioms_used
 
 
+def step_coqchk(prop):
+    """thorough tier: re-check the compiled theorem files and everything they depend on with the independent
+    checker and read the axioms / unsafe features it reports"""
+    fails, notes = [], []
+    with Lock("coq"):
+        for pf in prop["props_files"]:
+            mod = "Remoc." + pf[:-2].replace("/", ".")
+            rc, out = sh(["coqchk", "-silent", "-o", "-Q", "theories", "Remoc", mod], cwd=COQ, timeout=3000)
+            summ = out[out.find("CONTEXT SUMMARY"):] if "CONTEXT SUMMARY" in out else out[-1500:]
+            items = dict(re.findall(r"\* ([^:\n]+):\s*([^\n]*)", summ))
+            ok = rc == 0 and all(items.get(k, "").strip() == "<none>" for k in
+                                 ("Axioms", "Constants/Inductives relying on type-in-type",
+                                  "Constants/Inductives relying on unsafe (co)fixpoints",
+                                  "Inductives whose positivity is assumed"))
+            notes.append(f"coqchk -o {mod}: " + ("Axioms <none>, no unsafe features" if ok else summ[-600:]))
+            if not ok:
+                fails.append(Failure("lint", "coqchk " + mod, summ[-1500:]))
+    return fails, "; ".join(notes)
+
+
 def step_build_tools():
     fails = []
     with Lock("coq"):
@@ -482,6 +502,12 @@ def main():
     if not failures:
         f, obligations, discharged, theorems, axioms = step_coq(prop)
         failures += f
+    coqchk_note = "not run in the quick tier"
+    if tier == "thorough" and not failures:
+        f, coqchk_note = step_coqchk(prop)
+        failures += f
+        obligations += 1
+        discharged += 0 if f else 1
     # the correspondence runs even when a proof broke: it is also the failing-input search
     stats = {"evaluations": 0, "sigs": {}, "nontrivial_inputs": set(), "samples": [], "jobs": [], "kernel_checked": 0}
     bf = step_build_tools()
@@ -540,6 +566,7 @@ def main():
                 "translator tools/gen_from_source.py",
                 "extraction: ExtrOcamlBasic only, no Extract Constant/Inductive of our own; OCaml 4.13.1; mrun/main.ml",
                 "correspondence harness /verif/harness (Rust), hooks H1/H2 under --cfg remoc_verif",
+                "independent re-check: " + coqchk_note,
             ],
             "theorems": theorems,
             "evaluations": stats["evaluations"],
